@@ -319,6 +319,12 @@ pub fn check_mixed(c: &MixedCase, info: &mut CaseInfo) -> Result<(), String> {
 #[derive(Clone, Debug, Serialize, Deserialize, PartialEq, Eq, Hash)]
 pub struct SerialiseCase {
 	pub values: Vec<DnValueSpec>,
+	/// the first six values go under the six named attribute types, rotated by this (255: custom types only)
+	#[serde(default)]
+	pub std_offset: u8,
+	/// further IA5 texts for the three IA5-typed alternative name forms
+	#[serde(default)]
+	pub san_texts: Vec<String>,
 }
 
 pub fn check_serialise(c: &SerialiseCase, info: &mut CaseInfo) -> Result<(), String> {
@@ -330,7 +336,22 @@ pub fn check_serialise(c: &SerialiseCase, info: &mut CaseInfo) -> Result<(), Str
 	}
 	let mut spec = CertSpec::minimal();
 	spec.kid = KidSpec::Pre(Hex(vec![1]));
-	spec.dn = DnSpec(c.values.iter().enumerate().map(|(i, v)| (DnTypeSpec::Custom(vec![1, 3, 6, 1, 4, 1, 55555, i as u64]), v.clone())).collect());
+	const NAMED: [DnTypeSpec; 6] = [DnTypeSpec::Country, DnTypeSpec::Org, DnTypeSpec::CommonName, DnTypeSpec::Locality, DnTypeSpec::State, DnTypeSpec::OrgUnit];
+	spec.dn = DnSpec(
+		c.values
+			.iter()
+			.enumerate()
+			.map(|(i, v)| {
+				let t = if i < 6 && c.std_offset != 255 { NAMED[(i + c.std_offset as usize) % 6].clone() } else { DnTypeSpec::Custom(vec![1, 3, 6, 1, 4, 1, 55555, i as u64]) };
+				(t, v.clone())
+			})
+			.collect(),
+	);
+	for t in &c.san_texts {
+		spec.sans.push(SanSpec::Dns(t.clone()));
+		spec.sans.push(SanSpec::Rfc822(t.clone()));
+		spec.sans.push(SanSpec::Uri(t.clone()));
+	}
 	for v in c.values.iter().filter(|v| v.kind == StrKind::Ia5 && v.admitted()).take(40) {
 		spec.sans.push(SanSpec::Dns(v.text.clone()));
 		spec.sans.push(SanSpec::Rfc822(v.text.clone()));
@@ -375,17 +396,19 @@ fn serialise_sweep(cfg: &RunCfg) -> Vec<SerialiseCase> {
 			}
 		}
 	}
-	vals.chunks(400).map(|c| SerialiseCase { values: c.to_vec() }).collect()
+	vals.chunks(400).enumerate().map(|(i, c)| SerialiseCase { values: c.to_vec(), std_offset: if i % 7 == 6 { 255 } else { (i % 7) as u8 }, san_texts: vec![] }).collect()
 }
 
 fn serialise_random() -> BoxedStrategy<SerialiseCase> {
-	proptest::collection::vec(gen::dn_value(), 1..12).prop_map(|values| SerialiseCase { values }).boxed()
+	(proptest::collection::vec(gen::dn_value(), 1..12), prop_oneof![6 => 0u8..6, 1 => Just(255u8)], proptest::collection::vec(gen::ia5_text(12), 0..4))
+		.prop_map(|(values, std_offset, san_texts)| SerialiseCase { values, std_offset, san_texts })
+		.boxed()
 }
 
 pub fn def() -> PropertyDef {
 	PropertyDef {
 		id: "C13",
-		rule: "Exhaustive: every Unicode scalar value as a one-character string for each of the five restricted types (5 x 1 112 064), through TryFrom<&str>, TryFrom<String> and FromStr, against alphabet predicates transcribed from the property; every single UTF-16 unit (alone, after a high surrogate, before a low surrogate, after an ordinary unit, odd lengths) and every UTF-32 unit 0..0x110400 plus high ranges for the byte-level constructors; random multi-character mixed strings and random unit sequences; accepted values serialised in names (batches of 400 attributes) and IA5 values in SANs and decoded back under the expected tag. Non-trivial = within 2 code points of an alphabet boundary, surrogate-range inputs, mixed strings.",
+		rule: "Exhaustive: every Unicode scalar value as a one-character string for each of the five restricted types (5 x 1 112 064), through TryFrom<&str>, TryFrom<String> and FromStr, against alphabet predicates transcribed from the property; every single UTF-16 unit (alone, after a high surrogate, before a low surrogate, after an ordinary unit, odd lengths) and every UTF-32 unit 0..0x110400 plus high ranges for the byte-level constructors; random multi-character mixed strings and random unit sequences; accepted values serialised in names (batches of 400 attributes; under the six named attribute types as well as custom ones; incl. two-letter codes, digit strings, the empty string) and IA5 values in the three IA5-typed SAN forms (incl. texts that read as IP literals, lengths around 127/255 octets) and decoded back under the expected tag. Non-trivial = within 2 code points of an alphabet boundary, surrogate-range inputs, mixed strings.",
 		assumptions: vec!["the alphabet predicates in spec.rs are a faithful transcription of the property statement", "the harness string decoder"],
 		subs: vec![
 			sweep_sub("scalar-sweep", scalar_chunks, check_scalar_chunk),
